@@ -352,6 +352,7 @@ struct kase
   bool has_in = false;
   std::string dw;
   bool dwraw = false;
+  size_t dwpos = 0;		// position the (first) Dwarf value is created with
   size_t max = 20000;
   unsigned timeout = 10;
   long abandon = -1;
@@ -395,6 +396,8 @@ parse_case (std::string const &line)
 	  k.dw = val;
 	  k.dwraw = true;
 	}
+      else if (key == "dwpos")
+	k.dwpos = std::stoul (val);
       else if (key == "max")
 	k.max = std::stoul (val);
       else if (key == "t")
@@ -440,7 +443,7 @@ make_input (kase const &k, std::string &err)
   if (!k.dw.empty ())
     {
       // comma-separated list of files, pushed in order (last one is TOS)
-      size_t i = 0;
+      size_t i = 0, npushed = 0;
       while (i <= k.dw.size ())
 	{
 	  size_t j = k.dw.find (',', i);
@@ -450,8 +453,9 @@ make_input (kase const &k, std::string &err)
 	  i = j + 1;
 	  if (path.empty ())
 	    continue;
-	  zw_value *dw = k.dwraw ? zw_value_init_dwarf_raw (path.c_str (), 0, &e)
-				 : zw_value_init_dwarf (path.c_str (), 0, &e);
+	  zw_value *dw = k.dwraw ? zw_value_init_dwarf_raw (path.c_str (), k.dwpos + npushed, &e)
+				 : zw_value_init_dwarf (path.c_str (), k.dwpos + npushed, &e);
+	  npushed++;
 	  if (dw == nullptr)
 	    {
 	      err = std::string ("cannot open: ") + zw_error_message (e);
